@@ -47,6 +47,23 @@ Theorem C14_assertion_identity :
 Proof. exact assertion_identity. Qed.
 Print Assumptions C14_assertion_identity.
 
+(* every endpoint of the two real routers that takes an assertion (device authorization,
+   code exchange, refresh, revocation, introspection, jwt-bearer grant; [ep_auth] says which
+   authentication function the endpoint applies): the identity the request acts under is
+   the issuer of an assertion [verify_assertion] accepted; the code / refresh token / token
+   it redeems, revokes or reads belongs to exactly that client; where the endpoint goes
+   through AuthorizePrivateJWTKey the client is registered for private_key_jwt.  Neither
+   the client_id form parameter nor anything of an earlier request is an input. *)
+Theorem C14_router_endpoint :
+  forall (verify : keyid -> sigdesc -> bool) legacy ep owner v t cl now tok id,
+  router_endpoint_auth verify legacy ep owner v t cl now tok = Ok id ->
+  (exists c, verify_assertion verify v t now tok = Ok c /\ id = c_iss c)
+  /\ (ep_owned ep = true -> id = owner)
+  /\ (ep_auth legacy ep = AKPk -> lookup_client cl id = Some private_key_jwt)
+  /\ (ep_auth legacy ep = AKLookup -> exists m, lookup_client cl id = Some m).
+Proof. exact router_endpoint. Qed.
+Print Assumptions C14_router_endpoint.
+
 (* One verifier / provider instance serving any sequence of requests (different
    issuers of assertions, different request issuers of a dynamic-issuer provider):
    step n is decided by step n alone - expected audience = the issuer of THAT request,
@@ -135,12 +152,62 @@ Theorem C14_interop :
 Proof. exact interop. Qed.
 Print Assumptions C14_interop.
 
+(* ... and for EVERY max age (also one of a few seconds) that covers the real age of the
+   assertion: what a helper call writes for ITS OWN clock reading tb ([helper_claims]:
+   iss = sub = client, iat = floor tb, exp = iat + life; [helper_token]: signed with the
+   registered key) is accepted at [now] when the max age is 0 or >= (now - tb) + 1.5 s
+   and the asked lifetime has not run out. *)
+Theorem C14_interop_fresh :
+  forall (verify : keyid -> sigdesc -> bool) v t now tb client kid key alg auds life,
+  (forall d, sd_intact d = true -> verify (sd_signer d) d = true) ->
+  lookup_key t client kid = Some key ->
+  In alg accepted_algs -> In (v_issuer v) auds ->
+  0 <= v_offset v ->
+  (v_max_age v = 0 \/ now - tb + second + half_second <= v_max_age v) ->
+  second <= tb -> tb <= now ->
+  now + v_offset v < (tb / second + life) * second ->
+  verify_assertion verify v t now (helper_token client auds life alg kid key tb)
+  = Ok (helper_claims client auds life tb).
+Proof. exact interop_fresh. Qed.
+Print Assumptions C14_interop_fresh.
+
+(* ONE long-lived helper instance (token source, signer, relying party ...) called any
+   number of times at the clock readings tb_1 .. tb_n, the n-th assertion presented at
+   now_n to the verifier configuration v_n of that request ([calls] = (v_n, now_n, tb_n)):
+   every one of them is accepted ([helper_step_ok] = the premises of C14_interop_fresh
+   per step).  [helper_sequence] signs a new assertion per call; the example
+   [interop_fresh_nonvacuous] shows that re-sending the first one would be refused. *)
+Theorem C14_helper_sequence_accepted :
+  forall (verify : keyid -> sigdesc -> bool) t client kid key alg auds life (calls : list (vcfg * Z * Z)),
+  (forall d, sd_intact d = true -> verify (sd_signer d) d = true) ->
+  lookup_key t client kid = Some key -> In alg accepted_algs ->
+  Forall (helper_step_ok life (fun v => In (v_issuer v) auds)) calls ->
+  verify_sequence verify t
+    (combine (map fst calls) (helper_sequence client auds life alg kid key (map snd calls)))
+  = map (fun s => Ok (helper_claims client auds life (snd s))) calls.
+Proof. exact helper_sequence_accepted. Qed.
+Print Assumptions C14_helper_sequence_accepted.
+
+(* the theorem guard [helper_built_ok] of C14_spec_holds is exactly what [helper_claims]
+   gives for a clock reading inside the bracket of the call *)
+Theorem C14_helper_claims_built_ok :
+  forall v h client auds life alg kid key tb,
+  In alg accepted_algs -> In (v_issuer v) auds ->
+  h_t0 h <= tb -> tb <= h_t1 h -> h_life h = life ->
+  helper_built_ok v h (mkSig true alg kid key true) (helper_claims client auds life tb) = true.
+Proof. exact helper_claims_built_ok. Qed.
+Print Assumptions C14_helper_claims_built_ok.
+
 (* the property predicate the check evaluates on the implementation's answers holds
-   for the model on every input (clock bracket ordered; storage contract; what the
-   helpers are assumed to build - [helper_built_ok]: accepted algorithm (see
-   C14_interop_eddsa_refuted), sub = iss, the configured issuer in aud; the run checks
-   every real helper path against exactly this, the aud clause being what a helper that
-   addresses only the token endpoint breaks) *)
+   for the model on every input (clock bracket ordered; storage contract; what a helper
+   call is assumed to send - [helper_built_ok]: accepted algorithm (see
+   C14_interop_eddsa_refuted), sub = iss, the configured issuer in aud, iat = a clock
+   reading of THAT call and exp at least the asked lifetime later; the run checks every
+   real helper path, called repeatedly on long-lived instances, against exactly this: the
+   aud clause is what a helper that addresses only the token endpoint breaks, the
+   freshness clause what a helper that re-sends an earlier assertion breaks).  The
+   must-accept clause of [spec] holds for every max age that covers the time since the
+   call, not only for the provider's default of 1 h. *)
 Theorem C14_spec_holds :
   forall i, wf i = true -> helper_alg_accepted i = true -> spec i (model i) = true.
 Proof. exact spec_model. Qed.
